@@ -73,6 +73,10 @@ CLAIMS["C10"] = ("decision-table extraction by symbolic path enumeration (_attri
     "Decides: the attribution table (non-span types unattributed; kernel-to-kernel delay -> preceding kernel; (S,S),(S,E) -> src, (E,E) -> dest, (E,S) -> recorded parent), the parent is recorded whenever last_node moves and -1 is used on streams; bound_by's full table and that its literals are exactly the enum values of the four non-span types; breakdown has one record per critical edge with duration = weight, type = enum value, event_idx = attribution, left-joined on the unique event id with no later row removal/merging; summary = per-class share * 100. Span containment of the attributed event is not decided.",
     "3/C10")
 
+CLAIMS["C11"] = ("whole-program effect/alias analysis for the two symbol-table containers (who-may-write, incl. aliases from getters), structural rule for add_symbols, composition and ordering rules for the re-encoding and the worker pool, id-opacity scan with a frozen exception table",
+    "Decides the necessary structural conditions: only __init__/add_symbols/clone/create_from_symbol_id_map write sym_table or sym_index anywhere in hta, also through any alias handed out by the getters; add_symbols is append-only under the membership guard with the id taken before the append and both stores in the guarded block; clone copies, create_from_symbol_id_map derives the index from the table it built; re-encoding is global_map[local_table[old]] with the same rank's local table and the global map read after all additions, with no cast back to the narrow local dtype; results are collected only with pool.map and zipped with the rank list the inputs were built from, ranks sorted; no ordering/arithmetic use of an encoded name/cat column outside two justified sites where the column is decoded. Multiprocessing's delivery guarantees and hash-seed effects inside pandas are not decided.",
+    "3/C11")
+
 REASON_WIP = "checker under construction in this session (see DESIGN.md section 3); not claimed until its check is committed"
 
 
